@@ -7,6 +7,7 @@ threads, any number of calls each) and EVERY schedule (`List Nat`), by an induct
 (`Proofs/OnceCell.lean: Inv`, `step_inv`).
 -/
 import MetricsVerif.Proofs.OnceCell
+import MetricsVerif.Model.GlobalRec
 import MetricsVerif.Generated.SourceFacts
 
 namespace MetricsVerif.C02
@@ -93,6 +94,309 @@ theorem stable_once_initialised (o : Ord) (sched : List Nat) :
     have b := ih (step o s t) (step_inv o s t h) a.1
     exact ⟨b.1, b.2.trans a.2⟩
 
+/-! ### after the first dispatch: every call that completes later, on any thread, sees that recorder -/
+
+/-- what a call can still answer once the cell holds `r`: an installation is rejected (with some recorder
+    handed back), a lookup finds `r`. In particular never `ok`, never `none`, never another recorder. -/
+def LateRes (r : Nat) (x : Res) : Prop := (∃ e, x = Res.err e) ∨ x = Res.some r
+
+theorem okN_le_okCount (s : Sys) (tid : Nat) (t : Thread) (hg : s.threads[tid]? = some t) :
+    okN t ≤ okCount s := by
+  have h2 : ∀ (l : List Thread) (i : Nat) (x : Thread), l[i]? = some x → okN x ≤ (l.map okN).sum := by
+    intro l; induction l with
+    | nil => intro i x h; simp at h
+    | cons y ys ih =>
+      intro i x h
+      cases i with
+      | zero => simp at h; subst h; simp
+      | succ n => simp at h; have := ih n x h; simp only [List.map_cons, List.sum_cons]; omega
+  exact h2 _ _ _ hg
+
+/-- one thread step in an initialised state appends only late results to the stepped thread -/
+theorem eff_results_after_init {o : Ord} {s s' : Sys} {t t' : Thread} (e : Eff o s t s' t')
+    (h2 : s.state = 2) (r : Nat) (hc : s.cell = some r) (hcrit : critN t = 0) :
+    ∃ extra, t'.results = t.results ++ extra ∧ ∀ x ∈ extra, LateRes r x := by
+  cases e with
+  | noop => exact ⟨[], by simp, by simp⟩
+  | start t' hp hres hsyn h1 h2' h3 => exact ⟨[], by simp [hres], by simp⟩
+  | casWin hp h0 => omega
+  | casLose x hp h0 =>
+    exact ⟨[Res.err x], advance_results _ _, by intro y hy; simp at hy; exact Or.inl ⟨x, hy⟩⟩
+  | write x hp => simp [critN, hp] at hcrit
+  | store hp => simp [critN, hp] at hcrit
+  | loadNone hp hn => exact absurd h2 hn
+  | loadInit hp _ => exact ⟨[], by simp, by simp⟩
+  | read hp =>
+    rw [hc]
+    exact ⟨[Res.some r], advance_results _ _, by intro y hy; simp at hy; exact Or.inr hy⟩
+
+theorem step_after_init (o : Ord) (s : Sys) (tid : Nat) (h : Inv o s) (h2 : s.state = 2) (r : Nat)
+    (hc : s.cell = some r) (i : Nat) (t : Thread) (hi : s.threads[i]? = some t) :
+    ∃ t' extra, (step o s tid).threads[i]? = some t' ∧ t'.results = t.results ++ extra
+      ∧ ∀ x ∈ extra, LateRes r x := by
+  unfold step
+  cases hg : s.threads[tid]? with
+  | none => exact ⟨t, [], hi, by simp, by simp⟩
+  | some tt =>
+    simp only
+    have hth := stepThread_threads o s tt
+    have e := stepThread_eff o s tt
+    have hc2 := h.c2 h2
+    have hle := critN_le_critCount s tid tt hg
+    generalize (stepThread o s tt).1 = s' at hth e
+    generalize (stepThread o s tt).2 = t' at e
+    rw [hth, getElem?_setAt]
+    by_cases hti : tid = i
+    · subst hti
+      have htt : tt = t := by rw [hg] at hi; injection hi
+      subst htt
+      have hlt : tid < s.threads.length := by
+        rcases Nat.lt_or_ge tid s.threads.length with h' | h'
+        · exact h'
+        · rw [List.getElem?_eq_none h'] at hg; cases hg
+      rw [if_pos ⟨rfl, hlt⟩]
+      obtain ⟨extra, he, hl⟩ := eff_results_after_init e h2 r hc (by omega)
+      exact ⟨t', extra, rfl, he, hl⟩
+    · rw [if_neg (fun hh => hti hh.1)]
+      exact ⟨t, [], hi, by simp, by simp⟩
+
+theorem run_cons (o : Ord) (s : Sys) (tid : Nat) (ts : List Nat) :
+    run o s (tid :: ts) = run o (step o s tid) ts := rfl
+
+theorem run_append (o : Ord) (s : Sys) (a b : List Nat) : run o s (a ++ b) = run o (run o s a) b := by
+  simp [run, List.foldl_append]
+
+theorem run_after_init (o : Ord) (sched : List Nat) :
+    ∀ (s : Sys), Inv o s → s.state = 2 → ∀ r, s.cell = some r → ∀ (i : Nat) (t : Thread), s.threads[i]? = some t →
+    ∃ (t' : Thread) (extra : List Res), (run o s sched).threads[i]? = some t' ∧ t'.results = t.results ++ extra
+      ∧ ∀ x ∈ extra, LateRes r x := by
+  induction sched with
+  | nil => intro s _ _ r _ i t hi; exact ⟨t, [], hi, by simp, by simp⟩
+  | cons tid ts ih =>
+    intro s h h2 r hc i t hi
+    obtain ⟨t1, e1, h1, hr1, hl1⟩ := step_after_init o s tid h h2 r hc i t hi
+    have hm := step_state_mono o s tid h h2
+    obtain ⟨t2, e2, h2', hr2, hl2⟩ :=
+      ih (step o s tid) (step_inv o s tid h) hm.1 r (hm.2.trans hc) i t1 h1
+    refine ⟨t2, e1 ++ e2, by rw [run_cons]; exact h2', by rw [hr2, hr1, List.append_assoc], ?_⟩
+    intro x hx
+    rcases List.mem_append.mp hx with hx | hx
+    · exact hl1 x hx
+    · exact hl2 x hx
+
+/-- **after the first dispatch** (the third clause of the property, at full strength): take ANY programs and
+    ANY schedule `sched₁` after which some thread's lookup has answered `Some r` (its emission was dispatched
+    to recorder `r`). Then, whatever happens next (`sched₂`), every call that completes afterwards on ANY
+    thread — including lookups that were already under way — answers either `Err` (an installation, rejected)
+    or `Some r`: no later lookup falls back to the no-op recorder, none sees another recorder or a torn one,
+    and no later installation succeeds. -/
+theorem after_first_dispatch (o : Ord) (progs : List (List Call)) (sched₁ sched₂ : List Nat)
+    (u : Thread) (r : Nat) (hu : u ∈ (run o (init progs) sched₁).threads) (hr : Res.some r ∈ u.results)
+    (i : Nat) (t : Thread) (hi : (run o (init progs) sched₁).threads[i]? = some t) :
+    ∃ t' extra, (run o (init progs) (sched₁ ++ sched₂)).threads[i]? = some t'
+      ∧ t'.results = t.results ++ extra ∧ ∀ x ∈ extra, LateRes r x := by
+  have h := reachable_inv o progs sched₁
+  have a := (h.thr u hu).some_res r hr
+  rw [run_append]
+  exact run_after_init o sched₂ _ h a.1 r a.2 i t hi
+
+/-- a thread whose installation answered `Ok` proves the cell initialised -/
+theorem ok_means_initialised (o : Ord) (progs : List (List Call)) (sched : List Nat)
+    (u : Thread) (hu : u ∈ (run o (init progs) sched).threads) (hok : Res.ok ∈ u.results) :
+    (run o (init progs) sched).state = 2 := by
+  have h := reachable_inv o progs sched
+  obtain ⟨k, hk⟩ := List.getElem?_of_mem hu
+  have hle := okN_le_okCount _ k u hk
+  have hpos : 0 < okN u := by
+    unfold okN
+    exact List.countP_pos_iff.mpr ⟨Res.ok, hok, by simp⟩
+  have := h.st_le
+  rcases Nat.lt_or_ge (run o (init progs) sched).state 1 with h0 | h1
+  · have := h.c0 (by omega); omega
+  · rcases Nat.lt_or_ge (run o (init progs) sched).state 2 with h1' | h2
+    · have := h.c1 (by omega); omega
+    · omega
+
+/-- **after `set_global_recorder` has returned `Ok`** to anyone, every call that completes later on any
+    thread is rejected (installations) or finds the installed recorder (lookups) -/
+theorem after_install_returned (o : Ord) (progs : List (List Call)) (sched₁ sched₂ : List Nat)
+    (u : Thread) (hu : u ∈ (run o (init progs) sched₁).threads) (hok : Res.ok ∈ u.results) :
+    ∃ r, (run o (init progs) sched₁).cell = some r ∧
+      ∀ (i : Nat) (t : Thread), (run o (init progs) sched₁).threads[i]? = some t →
+        ∃ (t' : Thread) (extra : List Res), (run o (init progs) (sched₁ ++ sched₂)).threads[i]? = some t'
+          ∧ t'.results = t.results ++ extra ∧ ∀ x ∈ extra, LateRes r x := by
+  have h := reachable_inv o progs sched₁
+  have h2 := ok_means_initialised o progs sched₁ u hu hok
+  obtain ⟨r, hc⟩ := h.cell2 h2
+  refine ⟨r, hc, ?_⟩
+  intro i t hi
+  rw [run_append]
+  exact run_after_init o sched₂ _ h h2 r hc i t hi
+
+/-- **before that, nothing is dispatched**: as long as the publishing store has not happened, no lookup of
+    any thread has answered `Some` (every completed emission went to the no-op recorder) and no installation
+    has answered `Ok` -/
+theorem no_dispatch_before_publish (o : Ord) (progs : List (List Call)) (sched : List Nat)
+    (hs : (run o (init progs) sched).state ≠ 2) (u : Thread) (hu : u ∈ (run o (init progs) sched).threads) :
+    (∀ r, Res.some r ∉ u.results) ∧ Res.ok ∉ u.results := by
+  have h := reachable_inv o progs sched
+  exact ⟨fun r hr => hs ((h.thr u hu).some_res r hr).1, fun hok => hs (ok_means_initialised o progs sched u hu hok)⟩
+
+/-! ### the INITIALIZING window: a stalled installer wedges the cell (and nothing else can) -/
+
+/-- what a call can answer while the cell is being initialised: installations are rejected, lookups miss -/
+def WedgedRes (x : Res) : Prop := (∃ e, x = Res.err e) ∨ x = Res.none
+
+theorem two_le_sum (f : Thread → Nat) (l : List Thread) :
+    ∀ (w i : Nat) (a b : Thread), l[w]? = some a → l[i]? = some b → i ≠ w → f a + f b ≤ (l.map f).sum := by
+  induction l with
+  | nil => intro w i a b hw; simp at hw
+  | cons y ys ih =>
+    intro w i a b hw hi hne
+    have one : ∀ (l : List Thread) (k : Nat) (x : Thread), l[k]? = some x → f x ≤ (l.map f).sum := by
+      intro l; induction l with
+      | nil => intro k x h; simp at h
+      | cons z zs ih2 =>
+        intro k x h
+        cases k with
+        | zero => simp at h; subst h; simp
+        | succ n => simp at h; have := ih2 n x h; simp only [List.map_cons, List.sum_cons]; omega
+    cases w with
+    | zero =>
+      cases i with
+      | zero => exact absurd rfl hne
+      | succ n =>
+        simp at hw hi; subst hw
+        have := one ys n b hi
+        simp only [List.map_cons, List.sum_cons]; omega
+    | succ m =>
+      cases i with
+      | zero =>
+        simp at hw hi; subst hi
+        have := one ys m a hw
+        simp only [List.map_cons, List.sum_cons]; omega
+      | succ n =>
+        simp at hw hi
+        have := ih m n a b hw hi (by omega)
+        simp only [List.map_cons, List.sum_cons]; omega
+
+/-- one step of a thread other than the installer `w` while the cell is INITIALIZING -/
+theorem step_while_initializing (o : Ord) (s : Sys) (tid w : Nat) (tw : Thread) (h : Inv o s)
+    (h1 : s.state = 1) (hw : s.threads[w]? = some tw) (hcw : critN tw = 1) (hne : tid ≠ w) :
+    (step o s tid).state = 1 ∧ (step o s tid).threads[w]? = some tw ∧
+    ∀ (i : Nat) (t : Thread), s.threads[i]? = some t →
+      ∃ (t' : Thread) (extra : List Res), (step o s tid).threads[i]? = some t'
+        ∧ t'.results = t.results ++ extra ∧ ∀ x ∈ extra, WedgedRes x := by
+  unfold step
+  cases hg : s.threads[tid]? with
+  | none => exact ⟨h1, hw, fun i t hi => ⟨t, [], hi, by simp, by simp⟩⟩
+  | some tt =>
+    simp only
+    have hth := stepThread_threads o s tt
+    have e := stepThread_eff o s tt
+    have hc1 := h.c1 h1
+    have hT := h.thr tt (List.mem_of_getElem? hg)
+    have hsum := two_le_sum critN s.threads w tid tw tt hw hg hne
+    have hcrit : critN tt = 0 := by unfold critCount at hc1; omega
+    generalize (stepThread o s tt).1 = s' at hth e
+    generalize (stepThread o s tt).2 = t' at e
+    have key : s'.state = 1 ∧ ∃ extra, t'.results = tt.results ++ extra ∧ ∀ x ∈ extra, WedgedRes x := by
+      cases e with
+      | noop => exact ⟨h1, [], by simp, by simp⟩
+      | start t' hp hres hsyn a b c => exact ⟨h1, [], by simp [hres], by simp⟩
+      | casWin hp h0 => omega
+      | casLose x hp h0 =>
+        exact ⟨h1, [Res.err x], advance_results _ _, by intro y hy; simp at hy; exact Or.inl ⟨x, hy⟩⟩
+      | write x hp => simp [critN, hp] at hcrit
+      | store hp => simp [critN, hp] at hcrit
+      | loadNone hp hn =>
+        exact ⟨h1, [Res.none], advance_results _ _, by intro y hy; simp at hy; exact Or.inr hy⟩
+      | loadInit hp h2 => omega
+      | read hp => have := hT.at_read hp; omega
+    refine ⟨key.1, ?_, ?_⟩
+    · rw [hth, getElem?_setAt, if_neg (fun hh => hne hh.1)]; exact hw
+    · intro i t hi
+      rw [hth, getElem?_setAt]
+      by_cases hti : tid = i
+      · subst hti
+        have htt : tt = t := by rw [hg] at hi; injection hi
+        subst htt
+        have hlt : tid < s.threads.length := by
+          rcases Nat.lt_or_ge tid s.threads.length with h' | h'
+          · exact h'
+          · rw [List.getElem?_eq_none h'] at hg; cases hg
+        rw [if_pos ⟨rfl, hlt⟩]
+        obtain ⟨extra, he, hl⟩ := key.2
+        exact ⟨t', extra, rfl, he, hl⟩
+      · rw [if_neg (fun hh => hti hh.1)]
+        exact ⟨t, [], hi, by simp, by simp⟩
+
+/-- **a stalled installer wedges the cell**: from any reachable state in which thread `w` is between its
+    winning CAS and its publishing store, every schedule that does not run `w` leaves the cell INITIALIZING, and
+    every call completing meanwhile on any thread is a rejected installation (own recorder handed back) or a
+    lookup that misses (emission to the no-op recorder). Together with `src_set_window` (nothing in that window
+    can fail) and `at_most_one_ok` this is the whole story of the window: it is left only by `w`'s store. -/
+theorem wedged_while_installer_stalls (o : Ord) (sched : List Nat) (w : Nat) (tw : Thread) (hns : w ∉ sched) :
+    ∀ (s : Sys), Inv o s → s.state = 1 → s.threads[w]? = some tw → critN tw = 1 →
+    (run o s sched).state = 1 ∧
+    ∀ (i : Nat) (t : Thread), s.threads[i]? = some t →
+      ∃ (t' : Thread) (extra : List Res), (run o s sched).threads[i]? = some t'
+        ∧ t'.results = t.results ++ extra ∧ ∀ x ∈ extra, WedgedRes x := by
+  induction sched with
+  | nil => intro s _ h1 _ _; exact ⟨h1, fun i t hi => ⟨t, [], hi, by simp, by simp⟩⟩
+  | cons tid ts ih =>
+    intro s h h1 hw hcw
+    have hne : tid ≠ w := fun e => hns (by simp [e])
+    have hns' : w ∉ ts := fun e => hns (by simp [e])
+    obtain ⟨a1, a2, a3⟩ := step_while_initializing o s tid w tw h h1 hw hcw hne
+    obtain ⟨b1, b2⟩ := ih hns' (step o s tid) (step_inv o s tid h) a1 a2 hcw
+    refine ⟨by rw [run_cons]; exact b1, ?_⟩
+    intro i t hi
+    obtain ⟨t1, e1, h1', hr1, hl1⟩ := a3 i t hi
+    obtain ⟨t2, e2, h2', hr2, hl2⟩ := b2 i t1 h1'
+    refine ⟨t2, e1 ++ e2, by rw [run_cons]; exact h2', by rw [hr2, hr1, List.append_assoc], ?_⟩
+    intro x hx
+    rcases List.mem_append.mp hx with hx | hx
+    · exact hl1 x hx
+    · exact hl2 x hx
+
+/-! ### the lookup layer of mod.rs (`Model/GlobalRec.lean`) -/
+
+open MetricsVerif.GlobalRec in
+/-- `with_recorder`: a local recorder wins over whatever the global cell answers -/
+theorem dispatch_local_first (l : Nat) (g : Res) : dispatch (some l) g = .localRec l := rfl
+
+open MetricsVerif.GlobalRec in
+/-- `with_recorder` without a local recorder: the global recorder iff the cell answered `Some`, else no-op -/
+theorem dispatch_global_iff (g : Res) (r : Nat) : dispatch none g = .global r ↔ g = Res.some r := by
+  cases g <;> simp [dispatch]
+
+open MetricsVerif.GlobalRec in
+theorem dispatch_noop_iff (g : Res) : dispatch none g = .noop ↔ ∀ r, g ≠ Res.some r := by
+  cases g <;> simp [dispatch]
+
+open MetricsVerif.GlobalRec in
+/-- what the API user observes for a late result: a rejected installation or an emission sent to `r` -/
+theorem late_observed (r : Nat) (x : Res) (h : LateRes r x) :
+    (∃ e, ofRes x = .rejected e) ∨ ofRes x = .sent (.global r) := by
+  rcases h with ⟨e, rfl⟩ | rfl
+  · exact Or.inl ⟨e, rfl⟩
+  · exact Or.inr rfl
+
+open MetricsVerif.GlobalRec in
+/-- the third clause on the API level: for ANY API programs (installations, emissions, emissions under local
+    recorders, any number of threads) and any schedule after which some emission was dispatched to the global
+    recorder `r`, every cell call completing later is observed as a rejected installation or as an emission
+    sent to `r` -/
+theorem global_after_first_dispatch (o : Ord) (gprogs : List (List GCall)) (sched₁ sched₂ : List Nat)
+    (u : Thread) (r : Nat) (hu : u ∈ (grun o gprogs sched₁).threads) (hr : Res.some r ∈ u.results)
+    (i : Nat) (t : Thread) (hi : (grun o gprogs sched₁).threads[i]? = some t) :
+    ∃ t' extra, (grun o gprogs (sched₁ ++ sched₂)).threads[i]? = some t'
+      ∧ t'.results = t.results ++ extra
+      ∧ ∀ x ∈ extra, (∃ e, ofRes x = .rejected e) ∨ ofRes x = .sent (.global r) := by
+  obtain ⟨t', extra, a, b, c⟩ := after_first_dispatch o (gprogs.map toCell) sched₁ sched₂ u r hu hr i t hi
+  exact ⟨t', extra, a, b, fun x hx => late_observed r x (c x hx)⟩
+
 /-- a lookup that starts in an initialised state goes on to read the cell (it does not answer `None`) … -/
 theorem load_after_init (o : Ord) (s : Sys) (t : Thread) (rest : List Call)
     (hpc : t.pc = .loadState) (hc : t.calls = .load :: rest) (h2 : s.state = 2) :
@@ -149,6 +453,70 @@ theorem src_load_sees_whole (progs : List (List Call)) (sched : List Nat) :
     ∧ ∀ t ∈ (run srcOrd (init progs) sched).threads, Res.torn ∉ t.results :=
   load_sees_whole srcOrd src_orderings_ok progs sched
 
+/-! ### round 2: ties that a run on x86 under an SC scheduler cannot give -/
+
+/-- obligation: the pinned accesses are the ONLY atomic-looking accesses of the two functions and the pinned
+    orderings the ONLY ordering tokens — an aliased `st.load(Relaxed)` next to a decoy acquire load, or a second
+    store, changes one of these lists whatever the receiver is spelled like -/
+theorem src_no_decoy_accesses :
+    Generated.cell_load_atomic_ops = ["self.state.load"]
+    ∧ Generated.cell_set_atomic_ops = ["self.state.compare_exchange", "self.state.store"]
+    ∧ Generated.cell_load_all_orderings = [Generated.cell_load_ordering]
+    ∧ Generated.cell_set_all_orderings
+        = [Generated.cell_cas_success, Generated.cell_cas_failure, Generated.cell_store_ordering] := by decide
+
+/-- obligation: everything `set` and `try_load` call, in order. Between winning the CAS and the publishing
+    store there is exactly: take the slot pointer, box + leak the recorder, write it. No call into the recorder
+    (or anything else that can panic or block) sits in the INITIALIZING window — the step machine's
+    `write`/`store` steps have no failure mode because the code has none. -/
+theorem src_set_window :
+    Generated.cell_set_fn_calls
+      = ["self.state.compare_exchange", "Ok", "self.recorder.get", ".write", "Some", "Box::leak", "Box::new",
+         "self.state.store", "Ok", "Err", "SetRecorderError"]
+    ∧ Generated.cell_load_fn_calls = ["self.state.load", "self.recorder.get", ".read"] := by decide
+
+/-- obligation: the lookup layer of mod.rs is stateless and is what `Model/GlobalRec.lean` says:
+    `set_global_recorder` only forwards to the cell; the global cell is mentioned three times (its definition,
+    that forward, the lookup in `with_recorder`); the module's statics are the no-op recorder, the cell and ONE
+    thread-local (the local-recorder slot) — so no memo, no second slot, no pre-check; `with_recorder` tests the
+    local slot, then the cell, and applies `f` to local / global / no-op in that order and calls nothing else -/
+theorem src_global_layer :
+    Generated.global_set_body = "GLOBAL_RECORDER.set(recorder)"
+    ∧ Generated.global_cell_uses = ["set", "try_load"]
+    ∧ Generated.global_cell_mentions = 3
+    ∧ Generated.global_statics = ["NOOP_RECORDER", "GLOBAL_RECORDER", "LOCAL_RECORDER"]
+    ∧ Generated.global_thread_locals = 1
+    ∧ Generated.with_recorder_conditions = ["local_recorder.get()", "GLOBAL_RECORDER.try_load()"]
+    ∧ Generated.with_recorder_fn_calls
+        = ["LOCAL_RECORDER.with", "Some", "local_recorder.get", "f", "recorder.as_ref", "Some",
+           "GLOBAL_RECORDER.try_load", "f", "f"] := by decide
+
+/-- the branch of `with_recorder` named by the argument `f` is applied to, read as a partial dispatch -/
+def targetOfSrc (loc : Option Nat) (g : Res) (arg : String) : Option GlobalRec.Target :=
+  if arg == "recorder.as_ref()" then loc.map GlobalRec.Target.localRec
+  else if arg == "global_recorder" then (match g with | .some r => some (.global r) | _ => none)
+  else if arg == "&NOOP_RECORDER" then some .noop
+  else none
+
+/-- first branch (in source order) that applies -/
+def srcDispatch (loc : Option Nat) (g : Res) : Option GlobalRec.Target :=
+  Generated.with_recorder_targets.findSome? (targetOfSrc loc g)
+
+/-- obligation: the model's `dispatch` IS the extracted branch order of `with_recorder` -/
+theorem src_dispatch_is_model (loc : Option Nat) (g : Res) :
+    srcDispatch loc g = some (GlobalRec.dispatch loc g) := by
+  have h : Generated.with_recorder_targets = ["recorder.as_ref()", "global_recorder", "&NOOP_RECORDER"] := by decide
+  unfold srcDispatch
+  rw [h]
+  cases loc <;> cases g <;> simp [targetOfSrc, GlobalRec.dispatch, List.findSome?]
+
+/-- obligation: only `Sync + 'static` recorders can be installed globally (the cell itself is
+    `unsafe impl Sync` unconditionally and its `set` does not ask for `Sync`: the bound on the public
+    function is the only thing between a `Cell`-based recorder and every thread) -/
+theorem src_sync_bound :
+    "Sync" ∈ Generated.global_set_bounds ∧ "'static" ∈ Generated.global_set_bounds
+    ∧ "Recorder" ∈ Generated.global_set_bounds ∧ "'static" ∈ Generated.cell_set_bounds := by decide
+
 /-! ### non-vacuity: a concrete race of two installers and two loaders -/
 
 example :
@@ -156,5 +524,19 @@ example :
       (init [[.set 1], [.set 2], [.load, .load], [.load]]) [0, 1, 2, 3, 1, 0, 2, 1, 1, 2, 2, 3, 3]
     s.state = 2 ∧ s.cell = some 2 ∧ s.raced = false ∧
     s.threads.map (·.results) = [[.err 1], [.ok], [.none, .some 2], [.some 2]] := by decide
+
+/-- a stalled installer: thread 0 wins the CAS and is never run again; everybody else is rejected / misses -/
+example :
+    let s := run { storeRelease := true, loadAcquire := true }
+      (init [[.set 1], [.set 2, .load], [.load, .set 3]]) [0, 0, 1, 2, 1, 2, 1, 2, 1, 2]
+    s.state = 1 ∧ s.threads.map (·.results) = [[], [.err 2, .none], [.none, .err 3]] := by decide
+
+/-- the long-lived emitter: looks before the installation (no-op), under a local recorder, and after -/
+example :
+    let progs : List (List GlobalRec.GCall) := [[.emit, .emitLocal 21, .emit], [.install 1], [.install 2, .emit]]
+    let s := GlobalRec.grun { storeRelease := true, loadAcquire := true } progs [0, 0, 1, 2, 1, 2, 1, 1, 0, 0, 2, 2, 2]
+    GlobalRec.gobserve progs s =
+      [[.sent .noop, .sent (.localRec 21), .sent (.global 1)], [.installed], [.rejected 2, .sent (.global 1)]] := by
+  decide
 
 end MetricsVerif.C02
